@@ -342,6 +342,11 @@ func (s *Store[K, V]) GetWithSecodary(key K) (V, bool, error) {
 		// of the key has completed - could still join the finished lookup and be
 		// handed the deleted value.
 		defer shard.vgroup.Forget(key)
+		// Close is final: a closed cache misses, also for a key that lives in the
+		// secondary cache (the loading cache returns ErrCacheClosed at this point).
+		if shard.closed {
+			return v, &NotFound{}
+		}
 		// The key may have been stored since the lookup above missed: memory wins,
 		// the (older) secondary copy must not overwrite it.
 		if exist, ok := shard.get(key); ok {
